@@ -322,6 +322,36 @@ type MpNamed struct {
 	Sum    Totals
 }
 
+// MapThenInts: a typed (named) map in front of integer lists of different widths, one type repeated
+type MapThenInts struct {
+	M NamedMap
+	A []int32
+	B []int64
+	C []int64
+	D []uint32
+	E []int64
+}
+
+// CaseInts: integer fields whose names differ only in the case of a later letter
+type CaseInts struct {
+	Kb int64
+	KB int64
+	Mb int32
+	MB int32
+	Gb uint64
+	GB uint16
+}
+
+// TwoNarrow: unnamed lists of different narrow integer kinds side by side (no scalar of those kinds)
+type TwoNarrow struct {
+	Small  []int8
+	Medium []int16
+	Wide   []int32
+	Plain  []int
+	U16    []uint16
+	N      string
+}
+
 // EmbNamed embeds a custom-named struct (the promoted HessianCodecName is NOT its own name)
 type EmbNamed struct {
 	NamedS
@@ -484,7 +514,7 @@ var Types = []Entry{
 	e(NamedS{}, "custom"), e(NamedHolder{}, "custom"), e(NamedListHolder{}, "custom", "custom-slice"), e(NamedMapHolder{}, "custom", "custom-map"), e(MapThenLists{}, "custom", "custom-map", "slice"), e(PadThen{}, "scalars"),
 	e(Uni{}, "scalars", "unicode-fields"), e(NamedNode{}, "recursive", "custom"), e(MpStructKey{}, "map", "struct-key"), e(MpStrAny{}, "map", "iface"),
 	e(SlMapSl{}, "slice", "slice-of-map"), e(SlMapPtr{}, "slice", "slice-of-map", "recursive"), e(MpMpPtr{}, "map", "recursive"), e(MpNamed{}, "map", "custom", "custom-map"),
-	e(EmbNamed{}, "embedded", "custom"), e(EmbNamedHolder{}, "embedded", "custom", "slice"),
+	e(TwoNarrow{}, "slice"), e(MapThenInts{}, "custom", "custom-map", "slice"), e(CaseInts{}, "scalars", "case-variant-fields"), e(EmbNamed{}, "embedded", "custom"), e(EmbNamedHolder{}, "embedded", "custom", "slice"),
 	e(HoldR{}, "slice", "map", "self-referential-container"), e(NamedScalars{}, "scalars", "named-scalars", "slice", "map"),
 	e(DigestHolder{}, "slice", "named-bytes"), e(StampedHolder{}, "embedded", "embedded-time"), e(PtrMap{}, "map", "ptr-map"),
 	e(SlBool{}, "slice"), e(SlInt{}, "slice"), e(SlInt8{}, "slice"), e(SlInt16{}, "slice"), e(SlInt32{}, "slice"), e(SlInt64{}, "slice"),
